@@ -249,6 +249,11 @@ func (s *Sim) checkQueuePreemption(askKey string, victims []*MAlloc, now int64) 
 			if q == nil || len(q.Guar) == 0 {
 				continue
 			}
+			if under(askLeaf, qp) {
+				// a queue the asker lives under as well: its guarantee is the asker's as much as the victim's, taking
+				// from one child for another does not touch it
+				continue
+			}
 			anyGuar = true
 			if qp == vLeaf {
 				strict = true
